@@ -390,3 +390,31 @@ def simulate_bv(gatelist, nq, ftab, W):
         else:
             raise Unsupported("bv encoding: gate " + kind)
     return amp, hc
+
+
+def selftest(n=24, seed=11):
+    """engine validation: the exact affine simulation must agree with a dense floating point
+    unitary (independent code path) on fixed-seed random circuits over the full gate set"""
+    import cmath
+    import random
+
+    import numpy as np
+
+    from . import circorp
+
+    rnd = random.Random(seed)
+    cnt = 0
+    for i in range(n):
+        nq = rnd.choice([2, 3, 4])
+        gl = circorp.random_circuit(rnd, nq, rnd.randint(1, 9))
+        qc = circorp.build(gl, nq)
+        amp, hc, N = unitary_columns(qc.gates, nq)
+        U = dense_unitary(qc.gates, nq)
+        z = cmath.exp(2j * cmath.pi / N)
+        for k in range(1 << nq):
+            for r in range(1 << nq):
+                c = amp[r].c.get(("x", k), cz(N))
+                val = sum(c[j] * z ** j for j in range(N // 2)) / (2 ** (hc / 2.0))
+                assert abs(val - U[r, k]) < 1e-9, ("qamp selftest", circorp.show(gl), r, k, val, U[r, k])
+                cnt += 1
+    return cnt
